@@ -40,7 +40,8 @@ def pyDefaultNe (c : Case) : Res :=
 def onlyParticipating (c : Case) (tr : List String) : Bool :=
   tr.all (fun t => (c.fields.filter participates).any (fun f => tag f == t))
 
-def spec (c : Case) (o : Obs) : Bool :=
+/-- one round judged on its own -/
+def specRound (c : Case) (o : Round) : Bool :=
   if sameClass c.rhs then
     -- true exactly when every participating comparison is; never NotImplemented
     o.eqDirect != .NI && o.eqOp != .NI && o.eqDirect != .exc && o.eqOp != .exc &&
@@ -54,6 +55,26 @@ def spec (c : Case) (o : Obs) : Bool :=
     -- any other right operand: both methods NotImplemented, nothing compared, Python falls back to its default
     o.eqDirect == .NI && o.neDirect == .NI &&
     o.eqOp == pyDefaultEq c && o.neOp == pyDefaultNe c && o.trace == [] && o.neTrace == []
+
+/-- a fault is reached iff every participating field before it is fault-free and compares truthy -/
+def raises : List Field → Bool
+  | [] => false
+  | f :: rest =>
+    match faultOf f with
+    | .none => (outcome f).isTruthy && raises rest
+    | _ => true
+
+/-- the round with faults: if a fault is reached the exception propagates out of all four; otherwise (no
+    fault, or a falsy field stops the chain before it) the round is judged like any other. -/
+def specFirst (c : Case) (o : Round) : Bool :=
+  if sameClass c.rhs && raises (c.fields.filter participates) then
+    o.eqDirect == .exc && o.neDirect == .exc && o.eqOp == .exc && o.neOp == .exc &&
+    onlyParticipating c o.trace && onlyParticipating c o.neTrace
+  else specRound c o
+
+/-- the first round with its faults, the later round ON ITS OWN (whatever happened before), no residue -/
+def spec (c : Case) (o : Obs) : Bool :=
+  specFirst c o.first && specRound c o.again && o.residue == []
 
 def known (_ : Case) : List String := []
 
